@@ -193,7 +193,7 @@ fn hostile_uid(rng: &mut Rng, class: &str, base: &str, tmp: &Path) -> String {
 /// in one PDU (PDU incl. its 6-byte header must not exceed the acceptor's maximum).
 fn schedule(rng: &mut Rng, total: usize, max_pdu: usize) -> (Vec<Vec<usize>>, &'static str) {
     let one = max_pdu - 12; // one PDV per PDU
-    let style = *rng.pick(&["max", "small", "random", "multi-pdv", "byte-first", "two"]);
+    let style = *rng.pick(&["max", "small", "random", "multi-pdv", "byte-first", "two", "empty-last", "empty-mid"]);
     let mut out: Vec<Vec<usize>> = Vec::new();
     let mut left = total;
     match style {
@@ -236,6 +236,29 @@ fn schedule(rng: &mut Rng, total: usize, max_pdu: usize) -> (Vec<Vec<usize>>, &'
                     left -= k;
                 }
                 out.push(pdu);
+            }
+        }
+        "empty-last" | "empty-mid" => {
+            // zero-length data fragments: as the final (last-flagged) value, in a PDU of its own or
+            // behind the final bytes in the same PDU; or somewhere in the middle
+            while left > 0 {
+                let k = left.min(rng.urange(1, one.min(8192)));
+                out.push(vec![k]);
+                left -= k;
+            }
+            if style == "empty-last" {
+                if rng.bool() || out.is_empty() {
+                    out.push(vec![0]);
+                } else {
+                    out.last_mut().unwrap().push(0);
+                }
+            } else {
+                let at = rng.usize(out.len().max(1));
+                if rng.bool() || out.is_empty() {
+                    out.insert(at, vec![0]);
+                } else {
+                    out[at].insert(0, 0);
+                }
             }
         }
         "byte-first" => {
@@ -886,7 +909,7 @@ fn one_case(cfg: &Cfg, l: &mut Local, rng: &mut Rng, idx: u64, oparse: &Mutex<Op
 }
 
 pub fn run(cfg: &Cfg) -> Outcome {
-    let rule = "real dicom-storescp (sync / --non-blocking; random --promiscuous, --uncompressed-only, --strict, -m) in a sentinel tree; scripted dicom-ul requestor: 1-3 associations x 1-3 C-STOREs of G-DS data sets encoded by the reference encoder in the negotiated TS (Implicit/Explicit LE, Explicit BE, Deflated, Encapsulated Uncompressed, RLE, JPEG baseline), 6 fragmentation styles, 16 Affected SOP Instance UID classes; tree walk + stored file vs sent data set (dicom-object + cmp; O-PARSE leg in the driver); class = (mode, TS, uid class, fragmentation style, fragment count class)";
+    let rule = "real dicom-storescp (sync / --non-blocking; random --promiscuous, --uncompressed-only, --strict, -m) in a sentinel tree; scripted dicom-ul requestor: 1-3 associations x 1-3 C-STOREs of G-DS data sets encoded by the reference encoder in the negotiated TS (Implicit/Explicit LE, Explicit BE, Deflated, Encapsulated Uncompressed, RLE, JPEG baseline), 8 fragmentation styles (incl. zero-length data fragments, last-flagged or in the middle), 16 Affected SOP Instance UID classes; tree walk + stored file vs sent data set (dicom-object + cmp; O-PARSE leg in the driver); class = (mode, TS, uid class, fragmentation style, fragment count class)";
     if let Err(e) = proc::tool(cfg, "dicom-storescp") {
         let mut o = Outcome::new(Local::new(), rule);
         o.inconclusive = Some(e);
